@@ -276,6 +276,8 @@ def child(v, k):
         if k >= len(v.items):
             raise Inconclusive('index %d out of %d' % (k, len(v.items)))
         return v.items[k]
+    if isinstance(v, RefV) and k == 0:
+        return v        # Box<T> / Unique<T> / NonNull<T> are transparent wrappers around the pointer (MIR: ((b.0: Unique).0: NonNull))
     raise Inconclusive('projection .%s on %r' % (k, v))
 
 
@@ -861,6 +863,10 @@ class Exec:
                 ev = self.enum_variant(sc[0])
                 if ev:
                     return EnumV(ev[0], ev[1], ev[2], [self.operand(st, fr, x) for x in split_top(sc[1])])
+                last = strip_generics(sc[0]).split('::')[-1]
+                if last[:1].isupper():
+                    # tuple-struct aggregate such as Reverse::<usize>(x)
+                    return TupV([self.operand(st, fr, x) for x in split_top(sc[1])], None, last)
                 raise Inconclusive('rvalue ' + rv)
         return self.operand(st, fr, rv)
 
